@@ -66,6 +66,7 @@ Inductive eop :=
 | EMsgRepPtr (slot : nat) (num : Z) (idx : nat)     (* for x: c.AlwaysMessage(num, x.Encode) *)
 | EMsgPresent (slot : nat) (num : Z) (idx : nat)    (* c.PresentMessage(num, m.F.Encode) *)
 | EMsgRepVal (slot : nat) (num : Z) (idx : nat)     (* for i: c.AlwaysMessage(num, (&m.F[i]).Encode) *)
+| EMsgAlwaysVal (slot : nat) (num : Z) (idx : nat)  (* c.AlwaysMessage(num, m.F.Encode): by-value member of a oneof *)
 | EEnum (always : bool) (slot : nat) (num : Z)      (* c.[Always]Int32(num, int32ptr(&m.F)) *)
 | ERepEnum (slot : nat) (num : Z)
 | ECast (c : cast) (ptr rep : bool) (slot : nat) (num : Z)
